@@ -24,7 +24,6 @@ UNIT = dict(
     ],
     extract=[
         dict(id="ProjectType", kind="type", src="crates/project-origins/src/lib.rs", name="ProjectType", structural=True),
-        dict(id="ProjectType::is_vcs", kind="fn", src="crates/project-origins/src/lib.rs", impl="impl ProjectType", name="is_vcs"),
         dict(id="IgnoreFile", kind="type", src="crates/ignore-files/src/lib.rs", name="IgnoreFile", drop_derive=["Clone"], structural=True),
         dict(id="explicit_ignore_files", kind="fn", src=D, name="explicit_ignore_files"),
         dict(id="filterer_ignore_files", kind="block", src="crates/cli/src/filterer.rs", within="new", stmts_from="let ignore_files = if args.filtering.no_discover_ignore",
